@@ -1710,3 +1710,776 @@ def _cell_hygiene(ctx, v):
         if v.family == "flatten":
             ctx.ob("cell-hygiene", "%s:%s:cell-hygiene-switch" % (v.family, crole), not switch_probs,
                    "cell %s is cleared when its content is disposed mid-stream" % cname if not switch_probs else "; ".join(sorted(set(switch_probs))[:3]), None)
+
+
+# ============================================================================= transfer lemmas (C07, C06, C14)
+
+def is_factory_param(v, e):
+    return e is not None and e[0] == "param" and not v.P.bodies[e[1]].is_handler()
+
+
+def closure_returns(v, cid):
+    """[(guards, returned expr)] per returning path of a helper closure."""
+    out = []
+    for p in v.arm(cid, None, inline=0):
+        if p.end != "return":
+            continue
+        rets = [ev[1] for ev in p.events if ev[0] == "ret"]
+        gs = [a for (_, a, _) in guards_before(p, len(p.events))]
+        out.append((gs, rets[-1] if rets else None))
+    return out
+
+
+def lemma_take_admission(ctx, v, h):
+    """GRD-cmp + ATM-no-cta for take's Data arm: the datum is forwarded iff the atomic update of the counter itself admitted it
+    (fetch_update whose closure yields Some(t+1) iff t < max, or a comparison `pre < max` on the value an RMW returned)."""
+    probs = []
+    n = 0
+    cellk = None
+    for p in returning(v.arm(h, "Data")):
+        ds = [s for s in send_sig(v, h, "Data", p) if s[0] == "SINK" and s[1] == "Data"]
+        if len(ds) > 1:
+            probs.append("two data sends on one path")
+        admitted = None
+        for (i, a, ev) in guards_before(p, len(p.events)):
+            if a[0] == "discr" and a[1][0] == "rmw" and a[1][2] in ("fetch_update", "compare_exchange", "compare_exchange_weak"):
+                admitted = (a[2] == 0)
+                cellk = cell_key(a[1][1])
+                eff = [e for _, e in ev_effects(p) if e.kind == "atomic" and e.site == a[1][4]]
+                if eff and eff[0].closure:
+                    rets = closure_returns(v, eff[0].closure)
+                    okc = len(rets) == 2
+                    for gs, r in rets:
+                        cm = [g for g in gs if g[0] == "cmp"]
+                        if len(cm) != 1:
+                            okc = False
+                            continue
+                        g = cm[0]
+                        param_ok = g[1] is not None and g[1][0] == "param" and g[1][1] == eff[0].closure and is_factory_param(v, g[2])
+                        if not param_ok:
+                            okc = False
+                        elif g[3] == "<" and g[4] == 0:
+                            # t < max  => Some(t + 1)
+                            if not (r is not None and r[0] == "agg" and r[2] == "Option::Some" and lin(r[3][0]) == (g[1], 1)):
+                                okc = False
+                        elif g[3] == ">=" and g[4] == 0:
+                            if not (r is not None and r[0] == "agg" and r[2] == "Option::None"):
+                                okc = False
+                        else:
+                            okc = False
+                    if not okc:
+                        probs.append("the update closure is not `t < max => Some(t+1), else None`")
+                else:
+                    probs.append("atomic update without an analysable closure")
+            if a[0] == "cmp" and a[3] in ("<", ">=") and a[4] == 0:
+                ct = counter_term(a[1])
+                if ct and ct[0] == "pre" and is_factory_param(v, a[2]):
+                    admitted = (a[3] == "<")
+                    cellk = ct[1]
+                if ct and ct[0] == "cur" and is_factory_param(v, a[2]):
+                    # a plain load deciding admission: check-then-act
+                    probs.append("admission is decided on a separate load of the counter, not by the atomic update itself")
+                    cellk = ct[1]
+        n += 1
+        if admitted is None:
+            probs.append("a path forwards / drops the datum without an admission decision by the atomic update")
+        elif admitted and len(ds) != 1:
+            probs.append("admitted datum not forwarded exactly once")
+        elif admitted is False and ds:
+            probs.append("datum forwarded although not admitted")
+        if ds and ds[0][2] != "in":
+            probs.append("forwarded datum is not the incoming one")
+    if cellk and cell_init(v, cellk[0]) != 0:
+        probs.append("counter does not start at 0")
+    ctx.ob("GRD-cmp", v.key(h, "Data", "GRD-cmp", "admission"), not probs and n,
+           "a datum is forwarded iff the counter's own atomic update admitted it (pre < max), exactly once, unchanged" if not probs else "; ".join(sorted(set(probs))[:3]), v.loc(h))
+    return cellk
+
+
+def transfer_lemmas(ctx, v):
+    """Per-arm transfer function of the five unary operators (UP.D), relay arms, and the DOWN.P relay."""
+    h = v.by_role("UP")[0]
+    d = v.by_role("DOWN")[0]
+    fam = v.family
+    paths = returning(v.arm(h, "Data"))
+    if fam == "map":
+        probs = []
+        for p in paths:
+            ucs = [(i, e) for i, e in ev_effects(p) if e.kind == "usercall"]
+            sig = send_sig(v, h, "Data", p)
+            if len(ucs) != 1 or ucs[0][1].args != [incoming_payload(h, "Data")] or not is_factory_param(v, strip_clone(ucs[0][1].fn)):
+                probs.append("not exactly one call f(incoming datum)")
+                continue
+            if not (len(sig) == 1 and sig[0][0] == "SINK" and sig[0][1] == "Data" and sig[0][3].payload[0] == "call" and sig[0][3].payload[1] == ucs[0][1].site):
+                probs.append("the sink is not sent exactly Data(f(datum))")
+        ctx.ob("REL-1:1", v.key(h, "Data", "REL-1:1", "map-transfer"), not probs and paths, "UP.D sends exactly Data(f(d)) with f applied once to the incoming datum" if not probs else "; ".join(sorted(set(probs))), v.loc(h))
+    elif fam == "filter":
+        probs, kinds = [], set()
+        for p in paths:
+            ucs = [(i, e) for i, e in ev_effects(p) if e.kind == "usercall"]
+            sig = send_sig(v, h, "Data", p)
+            if len(ucs) != 1 or ucs[0][1].args != [incoming_payload(h, "Data")]:
+                probs.append("not exactly one call condition(&datum)")
+                continue
+            dec = [a for (_, a, _) in guards_before(p, len(p.events)) if a[0] == "bool" and a[1][0] == "call" and a[1][1] == ucs[0][1].site]
+            if len(dec) != 1:
+                probs.append("no branch on the predicate's result")
+                continue
+            got = [(s[0], s[1], s[2]) for s in sig]
+            if dec[0][2]:
+                kinds.add("pass")
+                if got != [("SINK", "Data", "in")]:
+                    probs.append("accepted datum: sends %s" % got)
+            else:
+                kinds.add("drop")
+                if got != [("UPTB", "Pull", "none")]:
+                    probs.append("rejected datum: sends %s" % got)
+        ctx.ob("REL-xor", v.key(h, "Data", "REL-xor", "filter-transfer"), not probs and kinds == {"pass", "drop"},
+               "UP.D forwards the datum iff condition(&d), otherwise re-requests exactly once" if not probs else "; ".join(sorted(set(probs))), v.loc(h))
+    elif fam == "scan":
+        probs = []
+        for p in paths:
+            effs = ev_effects(p)
+            ucs = [(i, e) for i, e in effs if e.kind == "usercall"]
+            sig = send_sig(v, h, "Data", p)
+            stores = [(i, e) for i, e in effs if e.kind == "cell" and e.op == "store"]
+            loads = [(i, e) for i, e in effs if e.kind == "cell" and e.op in ("load", "load_full")]
+            if len(ucs) != 1 or len(stores) != 1 or len(sig) != 1:
+                probs.append("shape is not load; reducer; store; load; send")
+                continue
+            (ui, u), (si, st) = ucs[0], stores[0]
+            a0 = strip_clone(u.args[0]) if u.args else None
+            if not (len(u.args) == 2 and a0 is not None and a0[0] == "cellload" and cell_key(a0[1]) == cell_key(st.cell) and u.args[1] == incoming_payload(h, "Data")):
+                probs.append("reducer not called as reducer(acc.clone(), datum)")
+            if not (st.value[0] == "call" and st.value[1] == u.site and ui < si):
+                probs.append("accumulator not updated with the reducer's result")
+            s0 = sig[0]
+            pl = strip_clone(s0[3].payload)
+            if not (s0[0] == "SINK" and s0[1] == "Data" and pl[0] == "cellload" and cell_key(pl[1]) == cell_key(st.cell)):
+                probs.append("the sink is not sent the accumulator")
+            else:
+                li = [i for i, e in loads if e.site == pl[2]]
+                if not li or not (si < li[0] < s0[4]):
+                    probs.append("the emitted accumulator is not read after the update")
+                if [1 for i, e in effs if e.kind == "send" and si < i < s0[4]]:
+                    probs.append("a send lies between the update and the emission")
+        ctx.ob("ORD-update-emit", v.key(h, "Data", "ORD-update-emit", "scan-transfer"), not probs and paths,
+               "UP.D: acc := reducer(acc.clone(), d); then emits acc.clone(), nothing in between" if not probs else "; ".join(sorted(set(probs))), v.loc(h))
+    elif fam == "take":
+        ck = lemma_take_admission(ctx, v, h)
+        for e, b, arms in terminal_sink_sends(v):
+            if arms == ["Data"]:
+                _take_completion(ctx, v, b, e)
+        # DOWN.P relays iff taken < max
+        probs, kinds = [], set()
+        for p in returning(v.arm(d, "Pull")):
+            sig = [(s[0], s[1]) for s in send_sig(v, d, "Pull", p)]
+            dec = [a for (_, a, _) in guards_before(p, len(p.events)) if a[0] == "cmp" and counter_term(a[1]) and counter_term(a[1])[0] == "cur" and is_factory_param(v, a[2])]
+            if len(dec) != 1 or (ck and counter_term(dec[0][1])[1] != ck):
+                probs.append("pull relay not decided by taken vs max")
+                continue
+            a = dec[0]
+            if a[3] == "<" and a[4] == 0:
+                kinds.add("relay")
+                if sig != [("UPTB", "Pull")]:
+                    probs.append("below the bound: sends %s" % sig)
+            elif a[3] == ">=" and a[4] == 0:
+                kinds.add("drop")
+                if sig:
+                    probs.append("at the bound: sends %s" % sig)
+            else:
+                probs.append("boundary of the pull relay is not taken < max")
+        ctx.ob("GRD-cmp", v.key(d, "Pull", "GRD-cmp", "pull-relay-below-bound"), not probs and kinds == {"relay", "drop"},
+               "DOWN.P relays the pull iff taken < max" if not probs else "; ".join(sorted(set(probs))), v.loc(d))
+    elif fam == "skip":
+        probs, kinds = [], set()
+        ck = None
+        for p in paths:
+            sig = [(s[0], s[1], s[2]) for s in send_sig(v, h, "Data", p)]
+            dec = [a for (_, a, _) in guards_before(p, len(p.events)) if a[0] == "cmp" and counter_term(a[1]) and is_factory_param(v, a[2])]
+            if len(dec) != 1:
+                probs.append("no single comparison of the skip counter with max")
+                continue
+            a = dec[0]
+            ck = counter_term(a[1])[1]
+            rm = [e for i, e in ev_effects(p) if e.kind == "atomic" and e.op != "load" and cell_key(e.cell) == ck]
+            if a[3] == "<" and a[4] == 0:
+                kinds.add("skip")
+                if sig != [("UPTB", "Pull", "none")] or len(rm) != 1 or not (rm[0].op == "fetch_add" and rm[0].operand[3] == 1):
+                    probs.append("below the bound: sends %s, counter updates %d" % (sig, len(rm)))
+            elif a[3] == ">=" and a[4] == 0:
+                kinds.add("pass")
+                if sig != [("SINK", "Data", "in")] or rm:
+                    probs.append("at/over the bound: sends %s" % sig)
+            else:
+                probs.append("boundary is not skipped < max")
+        if ck and cell_init(v, ck[0]) != 0:
+            probs.append("skip counter does not start at 0")
+        ctx.ob("REL-xor", v.key(h, "Data", "REL-xor", "skip-transfer"), not probs and kinds == {"skip", "pass"},
+               "UP.D: while skipped < max count and re-request, afterwards forward the datum unchanged" if not probs else "; ".join(sorted(set(probs))), v.loc(h))
+    # relay arms and completion rule shared by all five
+    lemma_rel_one(ctx, v, h, "Terminate", "SINK", "Terminate", "none", what="completes-with-upstream")
+    lemma_rel_one(ctx, v, h, "Error", "SINK", "Error", "in", what="error-relayed")
+    extra = [(e, b, arms) for e, b, arms in terminal_sink_sends(v) if not (v.op.roles.get(b) == "UP" and set(arms) <= {"Error", "Terminate"}) and not (fam == "take" and arms == ["Data"])]
+    ctx.ob("PL-nonH", "%s:PL-nonH:no-other-terminal-site" % v.name, not extra, "no terminal-to-sink site besides the relays%s" % (" and take's completion" if fam == "take" else ""), v.loc(h))
+    # synchronous: all data sends sit in the UP.D arm itself
+    ds = [(e, b) for e, b in v.sends() if e.variant == "Data" and v.cls_of(e)[0] == "SINK"]
+    sync = all(v.op.roles.get(b) == "UP" and site_arms(v, b, e.site) == ["Data"] for e, b in ds) and ds
+    ctx.ob("PL-nonH", "%s:PL-nonH:data-inside-delivery" % v.name, bool(sync), "every datum is sent from inside the Data arm that received its cause (same arm for push and pull)", v.loc(h))
+    if fam != "take":
+        lemma_rel_one(ctx, v, d, "Pull", "UPTB", "Pull", "none", what="pull-relayed")
+
+
+@prop("C07", "other",
+      "Structural proof of the per-datum transfer function of map, filter, scan, take and skip on the upstream Data arm, with value "
+      "provenance, in both feature configurations (sequential, A1-A6): map sends exactly Data(f(d)) with one call of f on the incoming "
+      "datum; filter calls condition(&d) once and forwards d iff it held, else re-requests once (REL-xor); scan updates acc := "
+      "reducer(acc.clone(), d) and emits the freshly read accumulator with no send in between (ORD-update-emit), acc being a "
+      "per-subscription clone of the seed; take forwards d iff the counter's own atomic update admitted it (normal form pre(taken) < "
+      "max, closure lemma for fetch_update), completes by post(taken) == max with end flag, upstream Terminate then sink Terminate in "
+      "the same arm, and relays pulls iff taken < max; skip counts and re-requests while skipped < max and forwards unchanged "
+      "afterwards. All five: Terminate/Error arms are 1:1 relays, there is no other terminal site, and every datum is sent from "
+      "inside the Data arm (same code for push and pull). The prefix-wise list equality follows by induction on the emitted "
+      "sequence; that induction is written in DESIGN.md, not mechanised, and values computed by user closures are out of scope.",
+      axioms=["A1", "A2", "A3", "A5", "A6"])
+def C07(ctx, model, tier, models):
+    census_operators(ctx, model)
+    n = 0
+    for v in views(model):
+        if v.cls == "unary":
+            transfer_lemmas(ctx, v)
+            n += 1
+    ctx.ob("CEN-H", "unary-operators", n == 5, "%d unary operators analysed (map, filter, scan, take, skip)" % n)
+    ctx.floor("REL-1:1", 1 + 2 * 5 + 4)
+
+
+# ============================================================================= C15 (from_iter) lemmas
+
+def from_iter_lemmas(ctx, v):
+    P = v.P
+    d = v.by_role("DOWN")[0]
+    loops = [t for t in v.by_role("THUNK") if any(e.kind == "send" for e in v.all_effects(t))]
+    ctx.ob("CEN-H", "%s:loop-thunk" % v.name, len(loops) == 1, "%d emitting thunk(s)" % len(loops), v.loc(v.op.id))
+    if len(loops) != 1:
+        return
+    t = loops[0]
+    tp = v.arm(t, None)
+    # --- which cells play which part (by structure)
+    # pull flag: the bool stored `true` in DOWN.P before the loop call; loop flag: stored true first / false last in the thunk
+    def bool_stores(path, val):
+        return [(i, e) for i, e in ev_effects(path) if e.kind == "atomic" and e.op == "store" and e.operand[0] == "const" and e.operand[3] == val]
+    probs = []
+    # ORD-bracket: first visible effect of every thunk path is in_loop.store(true); last is in_loop.store(false)
+    bracket = None
+    for p in complete(tp):
+        vis = [(i, e) for i, e in ev_effects(p) if effect_visible(P, e) and not e.tracing and e.kind != "panic"]
+        if not vis:
+            probs.append("empty loop path")
+            continue
+        f, l = vis[0][1], vis[-1][1]
+        if not (f.kind == "atomic" and f.op == "store" and f.operand[3] == 1):
+            probs.append("thunk does not start by raising the in-loop flag")
+            continue
+        bracket = cell_key(f.cell)
+        if p.end == "return" and not (l.kind == "atomic" and l.op == "store" and l.operand[3] == 0 and cell_key(l.cell) == bracket):
+            probs.append("thunk does not end by lowering the in-loop flag")
+        for i, e in ev_effects(p):
+            if e.kind == "send" and not (vis[0][0] < i and (p.end != "return" or i < vis[-1][0])):
+                probs.append("send outside the bracket")
+    ctx.ob("ORD-bracket", v.key(t, None, "ORD-bracket"), not probs and bracket is not None,
+           "in_loop := true dominates and in_loop := false post-dominates every send of the loop" if not probs else "; ".join(sorted(set(probs))[:3]), v.loc(t))
+    # the only call of the thunk is in DOWN.P, after got_pull := true, under in_loop == false (and res_done == false)
+    callers = thunk_callers(v, t)
+    good = bool(callers) and all(v.op.roles.get(cb) == "DOWN" and cv == "Pull" for cb, cv, _ in callers)
+    probs = [] if good else ["loop thunk called from %s" % sorted({"%s.%s" % (v.label(cb), VSHORT.get(cv, "-")) for cb, cv, _ in callers})]
+    pull_flag = None
+    for p in v.arm(d, "Pull", inline=0):
+        for i, e in ev_effects(p):
+            if e.kind == "thunk" and e.target == t:
+                st = [(j, x) for j, x in bool_stores(p, 1) if j < i]
+                if not st:
+                    probs.append("the pull is not recorded before the loop is entered")
+                else:
+                    pull_flag = cell_key(st[0][1].cell)
+                fl = flag_guard(p, i, False)
+                if bracket not in fl:
+                    probs.append("loop entered without testing the in-loop flag")
+        # every returning Pull path records the pull (unless disposed)
+        if p.end == "return":
+            disposed = any(a[0] == "bool" and a[2] is True and a[1][0] == "aload" for (_, a, _) in guards_before(p, len(p.events))[:1])
+            if not disposed and not bool_stores(p, 1):
+                probs.append("a Pull path does not record the pull")
+            # the store precedes the in_loop test
+            tests = [j for j, a, _ in guards_before(p, len(p.events)) if a[0] == "bool" and a[1][0] == "aload" and cell_key(a[1][1]) == bracket]
+            st = bool_stores(p, 1)
+            if tests and st and not st[0][0] < tests[0]:
+                probs.append("in-loop flag tested before the pull is recorded")
+    ctx.ob("ORD-bracket", v.key(d, "Pull", "ORD-bracket", "single-activation"), not probs and pull_flag is not None,
+           "DOWN.P records the pull, then enters the loop only if no activation is running: never re-entrant" if not probs else "; ".join(sorted(set(probs))[:3]), v.loc(d))
+    # per iteration: got_pull := false; exactly one iterator advance; Terminate-and-leave xor Data(v) with v from this advance
+    probs = []
+    n_iter = 0
+    for p in tp:
+        evs = p.events
+        # iteration boundaries: tests of the pull flag being true
+        starts = [i for i, ev in enumerate(evs) if ev[0] == "br" and norm_pred(ev[1], ev[2])[0] == "bool" and norm_pred(ev[1], ev[2])[1][0] == "aload"
+                  and cell_key(norm_pred(ev[1], ev[2])[1][1]) == pull_flag and norm_pred(ev[1], ev[2])[2] is True]
+        for si, s in enumerate(starts):
+            e_end = starts[si + 1] if si + 1 < len(starts) else len(evs)
+            seg = [(i, evs[i]) for i in range(s, e_end)]
+            effs = [(i, x[1]) for i, x in seg if x[0] == "eff"]
+            sends = [(i, e) for i, e in effs if e.kind == "send"]
+            nexts = [(i, e) for i, e in effs if e.kind == "iternext"]
+            if p.end == "cut" and si == len(starts) - 1 and not sends:
+                continue
+            completed_seen = any(x[0] == "br" and norm_pred(x[1], x[2])[0] == "bool" and norm_pred(x[1], x[2])[2] is True and norm_pred(x[1], x[2])[1][0] == "aload"
+                                 and cell_key(norm_pred(x[1], x[2])[1][1]) not in (pull_flag, bracket) and not sends and not nexts for i, x in seg)
+            if completed_seen:
+                continue
+            n_iter += 1
+            resets = [i for i, e in effs if e.kind == "atomic" and e.op == "store" and cell_key(e.cell) == pull_flag and e.operand[3] == 0]
+            if not resets or (nexts and resets[0] > nexts[0][0]):
+                probs.append("iteration does not consume the pull before advancing")
+            if len(nexts) != 1:
+                probs.append("%d iterator advances in one iteration" % len(nexts))
+                continue
+            if len(sends) != 1:
+                probs.append("%d sends in one iteration" % len(sends))
+                continue
+            snd = sends[0][1]
+            if v.cls_of(snd)[0] != "SINK":
+                probs.append("loop sends to %s" % v.cls_of(snd)[0])
+            if snd.variant == "Data":
+                # provenance: the payload is what this iteration's next() stored (through the value cell), no send in between
+                stores = [(i, e) for i, e in effs if e.kind == "pstore" and e.value[0] == "call" and e.value[2] == "std::iter::Iterator::next" and e.value[1] == nexts[0][1].site]
+                pl = snd.payload
+                via = [x for x in walk(pl) if x[0] == "lock"]
+                if not stores:
+                    probs.append("the advanced value is not stored")
+                elif not via or not any(x[0] == "lock" and cell_key(x[1]) == cell_key([y for y in walk(stores[0][1].place) if y[0] == "lock"][0][1]) for x in via):
+                    probs.append("the datum sent is not the value this advance produced")
+            elif snd.variant == "Terminate":
+                later = [x for i, x in effs if i > sends[0][0] and x.kind in ("send", "iternext")]
+                if later or (si + 1 < len(starts)):
+                    probs.append("loop continues after Terminate")
+            else:
+                probs.append("loop sends %s" % snd.variant)
+    ctx.ob("REL-xor", v.key(t, None, "REL-xor", "one-advance-one-send-per-pull"), not probs and n_iter >= 2,
+           "each iteration consumes one recorded pull, advances the iterator once and sends that item, or Terminate and leaves" if not probs else "; ".join(sorted(set(probs))[:3]), v.loc(t))
+    # iterator advanced only inside the thunk
+    others = [b for b in v.op.bodies if b != t and any(e.kind == "iternext" for e in v.all_effects(b))]
+    ctx.ob("PL-nonH", "%s:iternext-only-in-loop" % v.name, not others, "the iterator is advanced only inside the loop thunk", v.loc(t))
+    for e, b, arms in terminal_sink_sends(v):
+        if v.op.roles.get(b) == "THUNK":
+            _from_iter_completion(ctx, v, b, e)
+    _from_iter_disposal(ctx, v)
+    # DOWN.E|T only set the flag
+    for var in ("Error", "Terminate"):
+        _flag_only_arm(ctx, v, d, var)
+    # locked regions contain no send
+    probs = []
+    for p in tp:
+        depth_lock = None
+        for i, ev in enumerate(p.events):
+            pass
+    return
+
+
+@prop("C15", "other",
+      "Structural proof for from_iter (sequential, A5/A6), both feature configurations: ORD-bracket - the loop thunk raises in_loop "
+      "first and lowers it last around every send, and its only call site is DOWN.P, after got_pull := true and under in_loop == "
+      "false (so a nested Pull is recorded and served by the running activation: at most one activation on the stack, stack depth "
+      "independent of the item count); per iteration the loop consumes the recorded pull (got_pull := false), advances the iterator "
+      "exactly once and sends exactly that item (provenance through the value cell, written and taken in the same iteration) or "
+      "sends Terminate and leaves (REL-xor); the iterator is advanced nowhere else; Terminate is guarded by the exhaustion flag and "
+      "DOWN.P enters the loop only while it is false; a disposed talkback returns at once, the loop re-reads `completed` before every "
+      "send, and DOWN.E|T only set the flag.",
+      axioms=["A5", "A6"])
+def C15(ctx, model, tier, models):
+    census_operators(ctx, model)
+    n = 0
+    for v in views(model):
+        if v.family == "from_iter":
+            from_iter_lemmas(ctx, v)
+            lemma_rel_one(ctx, v, v.root, "Handshake", "SINK", "Handshake", "closure:DOWN", what="greet")
+            n += 1
+    ctx.ob("CEN-H", "from_iter-present", n == 1, "from_iter analysed")
+    ctx.floor("ORD-bracket", 2)
+    ctx.floor("REL-xor", 1)
+
+
+# ============================================================================= C14 demand conservation
+
+def pull_sends(v):
+    return [(e, b) for e, b in v.sends() if e.variant == "Pull"]
+
+
+def demand_lemmas(ctx, v):
+    fam = v.family
+    P = v.P
+    if fam in ("map", "scan", "filter", "skip", "take"):
+        h = v.by_role("UP")[0]
+        d = v.by_role("DOWN")[0]
+        if fam != "take":
+            lemma_rel_one(ctx, v, d, "Pull", "UPTB", "Pull", "none", what="pull-relayed", only_class=("UPTB", "SINK", "SINKLIST", "UPSRC"))
+        # token down: each path of UP.D emits exactly one token (Data down or Pull up), except take past its bound
+        probs = []
+        for p in returning(v.arm(h, "Data")):
+            sig = send_sig(v, h, "Data", p)
+            toks = [s for s in sig if (s[0] == "SINK" and s[1] == "Data") or (s[0] == "UPTB" and s[1] == "Pull")]
+            if len(toks) != 1:
+                if fam == "take" and not toks:
+                    continue   # not admitted: the output is already over (C07 admission lemma)
+                probs.append("path emits %s" % [(s[0], s[1]) for s in toks])
+            if fam in ("map", "scan", "take") and any(s[0] == "UPTB" and s[1] == "Pull" for s in sig):
+                probs.append("unrequested pull")
+        ctx.ob("REL-token", v.key(h, "Data", "REL-token"), not probs, "every consumed datum re-emits exactly one token (Data down, or a compensating Pull up)" if not probs else "; ".join(sorted(set(probs))), v.loc(h))
+    if fam == "concat":
+        h = v.by_role("UP")[0]
+        d = v.by_role("DOWN")[0]
+        lemma_rel_one(ctx, v, h, "Data", "SINK", "Data", "in", what="data-relayed", only_class=("SINK", "UPTB"))
+        # DOWN.P: got_pull := true, then exactly one pull through the talkback cell
+        probs = []
+        gp = None
+        for p in returning(v.arm(d, "Pull")):
+            effs = ev_effects(p)
+            st = [(i, e) for i, e in effs if e.kind == "atomic" and e.op == "store" and e.operand[3] == 1]
+            sig = send_sig(v, d, "Pull", p)
+            if [(s[0], s[1]) for s in sig] != [("UPTB", "Pull")]:
+                probs.append("DOWN.P sends %s" % [(s[0], s[1]) for s in sig])
+            if not st or (sig and st[0][0] > sig[0][4]):
+                probs.append("the pull is not recorded before it is relayed")
+            else:
+                gp = cell_key(st[0][1].cell)
+        ctx.ob("ORD-flag-relay", v.key(d, "Pull", "ORD-flag-relay", "pull-recorded-then-relayed"), not probs and gp is not None,
+               "DOWN.P records the outstanding pull, then relays it" if not probs else "; ".join(sorted(set(probs))), v.loc(d))
+        # UP.H, not first member: pull the new member iff a pull was recorded, after storing its talkback
+        probs, kinds = [], set()
+        for p in returning(v.arm(h, "Handshake")):
+            sig = send_sig(v, h, "Handshake", p)
+            first = any(a[0] == "cmp" and a[3] == "==" and a[4] == 0 and a[2] is None and counter_term(a[1]) for (_, a, _) in guards_before(p, len(p.events)))
+            if first:
+                continue
+            fl = [a for (_, a, _) in guards_before(p, len(p.events)) if a[0] == "bool" and a[1][0] == "aload" and cell_key(a[1][1]) == gp]
+            if len(fl) != 1:
+                probs.append("boundary does not consult the recorded pull")
+                continue
+            pulls = [s for s in sig if s[0] == "UPTB" and s[1] == "Pull"]
+            if fl[0][2]:
+                kinds.add("pull")
+                st = [i for i, e in ev_effects(p) if e.kind == "cell" and e.op == "store"]
+                if len(pulls) != 1 or len(sig) != 1 or not st or st[0] > pulls[0][4]:
+                    probs.append("outstanding pull not re-issued exactly once to the new member (after storing its talkback)")
+            else:
+                kinds.add("nopull")
+                if sig:
+                    probs.append("boundary sends %s although no pull is outstanding" % [(s[0], s[1]) for s in sig])
+        ctx.ob("REL-xor", v.key(h, "Handshake", "REL-xor", "boundary-pull-iff-outstanding"), not probs and kinds == {"pull", "nopull"},
+               "a later member is pulled on greeting iff the sink has pulled" if not probs else "; ".join(sorted(set(probs))), v.loc(h))
+        # UP.T hands the token to `next`
+        probs = []
+        for p in returning(v.arm(h, "Terminate", inline=0)):
+            th = [e for i, e in ev_effects(p) if e.kind == "thunk"]
+            rm = [i for i, e in ev_effects(p) if e.kind == "atomic" and e.op == "fetch_add"]
+            ti = [i for i, e in ev_effects(p) if e.kind == "thunk"]
+            if len(th) != 1 or len(rm) != 1 or not rm[0] < ti[0]:
+                probs.append("member end does not advance the index and call `next` exactly once")
+        ctx.ob("ORD-update-emit", v.key(h, "Terminate", "ORD-update-emit", "advance-then-next"), not probs, "a member's end advances the index, then calls `next` once" if not probs else probs[0], v.loc(h))
+    if fam == "flatten":
+        d = v.by_role("DOWN")[0]
+        uo = v.by_role("UP")[0]
+        ui = v.by_role("UP_INNER")[0]
+        tb = v.talkback_cells()
+        inner_k = [k for k, l in tb.items() if any(h == ui for h, _ in l)]
+        outer_k = [k for k, l in tb.items() if any(h == uo for h, _ in l)]
+        # pull routing
+        probs, kinds = [], set()
+        for p in returning(v.arm(d, "Pull")):
+            sig = send_sig(v, d, "Pull", p)
+            tgt = [base_key(recv_load(s[3])[1]) for s in sig if s[0] == "UPTB" and s[1] == "Pull" and recv_load(s[3])]
+            dec = {}
+            for (_, a, _) in guards_before(p, len(p.events)):
+                if a[0] == "discr" and a[1][0] == "cellload":
+                    dec[base_key(a[1][1])] = (a[2] == 1)
+            if inner_k and dec.get(inner_k[0]) is True:
+                kinds.add("inner")
+                if tgt != inner_k or len(sig) != 1:
+                    probs.append("active inner: pull goes to %d targets" % len(sig))
+            elif outer_k and dec.get(outer_k[0]) is True:
+                kinds.add("outer")
+                if tgt != outer_k or len(sig) != 1 or dec.get(inner_k[0]) is not False:
+                    probs.append("no inner: pull does not go to the outer alone")
+            else:
+                kinds.add("none")
+                if sig:
+                    probs.append("both levels gone but something is sent")
+        ctx.ob("REL-xor", v.key(d, "Pull", "REL-xor", "pull-routing"), not probs and kinds == {"inner", "outer", "none"},
+               "a Pull goes to the active inner if there is one, else to the outer, else nowhere" if not probs else "; ".join(sorted(set(probs))), v.loc(d))
+        # inner greeting: store then exactly one pull to that talkback
+        probs = []
+        for p in returning(v.arm(ui, "Handshake")):
+            sig = send_sig(v, ui, "Handshake", p)
+            st = [i for i, e in ev_effects(p) if e.kind == "cell" and e.op == "store" and base_key(e.cell) in inner_k]
+            if not ([(s[0], s[1]) for s in sig] == [("UPTB", "Pull")] and st and st[0] < sig[0][4] and recv_load(sig[0][3]) and base_key(recv_load(sig[0][3])[1]) in inner_k):
+                probs.append("inner greeting is not: store talkback; pull it once")
+        ctx.ob("REL-1:1", v.key(ui, "Handshake", "REL-1:1", "inner-pulled-on-greeting"), not probs, "each inner is stored and pulled exactly once on greeting" if not probs else probs[0], v.loc(ui))
+        lemma_rel_one(ctx, v, ui, "Data", "SINK", "Data", "in", what="inner-data-relayed", only_class=("SINK", "UPTB"))
+        # outer datum: consumed, exactly one inner subscription, no data to the sink
+        probs = []
+        for p in returning(v.arm(uo, "Data")):
+            sig = send_sig(v, uo, "Data", p)
+            subs = [s for s in sig if s[0] == "UPSRC_INNER" and s[1] == "Handshake"]
+            if len(subs) != 1 or any(s[0] == "SINK" for s in sig):
+                probs.append("outer datum does not lead to exactly one inner subscription")
+        ctx.ob("REL-1:1", v.key(uo, "Data", "REL-1:1", "inner-subscribed-once"), not probs, "each outer datum subscribes exactly one inner source" if not probs else probs[0], v.loc(uo))
+        # inner end with the outer alive re-issues the token to the outer
+        probs, kinds = [], set()
+        for p in returning(v.arm(ui, "Terminate")):
+            sig = send_sig(v, ui, "Terminate", p)
+            if any(s[0] == "SINK" for s in sig):
+                kinds.add("complete")
+                continue
+            kinds.add("pull-outer")
+            pulls = [s for s in sig if s[0] == "UPTB" and s[1] == "Pull" and recv_load(s[3]) and base_key(recv_load(s[3])[1]) in outer_k]
+            if len(pulls) != 1 or len(sig) != 1:
+                probs.append("inner end with a live outer does not pull the outer exactly once")
+        ctx.ob("REL-token", v.key(ui, "Terminate", "REL-token", "inner-end-pulls-outer"), not probs and kinds == {"complete", "pull-outer"},
+               "an inner's end either completes the output or re-requests from the outer" if not probs else probs[0], v.loc(ui))
+    # PL-pull census
+    for e, b in pull_sends(v):
+        role = v.op.roles.get(b)
+        arms = site_arms(v, b, e.site)
+        ok = False
+        if role == "DOWN" and arms == ["Pull"]:
+            ok = True
+        elif fam in ("filter", "skip") and role == "UP" and arms == ["Data"]:
+            ok = True
+        elif fam == "concat" and role == "UP" and arms == ["Handshake"]:
+            ok = True
+        elif fam == "flatten" and role == "UP_INNER" and set(arms) <= {"Handshake", "Terminate"}:
+            ok = True
+        elif fam == "for_each" and role == "UP" and set(arms) <= {"Handshake", "Data"}:
+            ok = True
+        ctx.ob("PL-pull", v.key(b, None, "PL-pull", "site-%s" % "".join(VSHORT[a] for a in arms)), ok, "Pull site in %s arms %s" % (v.label(b), arms), e.loc)
+
+
+@prop("C14", "other",
+      "Token-conservation lemmas decided per arm (a Pull is a token travelling up, a Data or an end a token travelling down), for "
+      "from_iter, map, filter, scan, take, skip, concat, flatten, sequential histories over pullable upstreams (A7): DOWN.P relays "
+      "exactly one Pull (take: iff taken < max; flatten: routed to the active inner, else the outer, else nowhere); every Data arm "
+      "re-emits exactly one token (Data down, or the compensating Pull of filter/skip; flatten's outer datum becomes one inner "
+      "subscription whose greeting is pulled once); swallowed ends hand the token on (concat: index advanced, `next`, and the new "
+      "member pulled on greeting iff a pull was recorded, the record being written before the relay; flatten: inner end pulls the "
+      "outer); from_iter serves one advance and one send per recorded pull (C15 lemmas); PL-pull: census of all Pull sites, so no "
+      "unrequested demand is created. #Data <= #Pull and 'every Pull is answered' follow by induction over the history; that "
+      "induction is written, not mechanised. concat's got_pull is sticky, harmless under A7.",
+      axioms=["A1", "A2", "A5", "A6", "A7"])
+def C14(ctx, model, tier, models):
+    census_operators(ctx, model)
+    for v in views(model):
+        if v.family in ("map", "scan", "filter", "skip", "take", "concat", "flatten", "for_each"):
+            demand_lemmas(ctx, v)
+        if v.family == "take":
+            transfer_lemmas(ctx, v)
+        if v.family == "from_iter":
+            from_iter_lemmas(ctx, v)
+        if v.family in ("merge", "combine", "share", "interval"):
+            # not in the property's list, but their Pull sites are part of the census (no unrequested demand anywhere)
+            for e, b in pull_sends(v):
+                ok = v.op.roles.get(b) == "DOWN" and site_arms(v, b, e.site) == ["Pull"]
+                ctx.ob("PL-pull", v.key(b, None, "PL-pull", "site"), ok, "Pull site in %s" % v.label(b), e.loc)
+    ctx.floor("PL-pull", 18)
+    ctx.floor("REL-token", 6)
+
+
+# ============================================================================= C08 merge
+
+def merge_lemmas(ctx, v):
+    ups = v.by_role("UP")
+    d = v.by_role("DOWN")[0]
+    r = v.root
+    tb = v.talkback_cells()
+    for h in ups:
+        # greeting at the first member greeting
+        found = False
+        for p in v.arm(h, "Handshake"):
+            for s in send_sig(v, h, "Handshake", p):
+                if s[1] == "Handshake" and s[0] == "SINK":
+                    found = True
+                    g = grd_once(v, p, s[4])
+                    ok = g is not None and g["step"] == 1 and g["init"] == 0 and g["post_offset"] == 1 and g["bound"] is None and g["uniform"] and g["scope"] == "SUBSCRIPTION"
+                    ctx.ob("GRD-once", v.key(h, "Handshake", "GRD-once", "greet-at-first-member"), ok,
+                           "the sink is greeted by the member whose increment of start_count returned 0 (post == 1)" if ok else "greeting is not guarded by post(start_count) == 1 on a monotone counter from 0", s[3].loc)
+                    ctx.ob("ORD-adjacent", v.key(h, "Handshake", "ORD-adjacent", "greet"), g is not None and g["adjacent"], "no send between the count and the greeting", s[3].loc)
+                    # ORD-store-pub: the member's cell is stored before the count and the greeting
+                    st = [i for i, e in ev_effects(p) if e.kind == "cell" and e.op == "store" and e.value[0] == "agg" and e.value[2] == "Option::Some" and base_key(e.cell) in tb]
+                    okp = bool(st) and g is not None and g["rmw_idx"] is not None and st[0] < g["rmw_idx"]
+                    ctx.ob("ORD-store-pub", v.key(h, "Handshake", "ORD-store-pub", "cell-before-count-and-greeting"), okp, "the member's talkback is stored before it is counted and before the greeting", s[3].loc)
+        ctx.ob("PL-greet", v.key(h, "Handshake", "PL-greet", "member-greets"), found, "member arm contains the guarded greeting", v.loc(h))
+        # data: stateless 1:1 relay
+        probs = []
+        for p in returning(v.arm(h, "Data")):
+            sig = send_sig(v, h, "Data", p)
+            vis = [e for i, e in ev_effects(p) if effect_visible(v.P, e) and not e.tracing and e.kind != "send"]
+            brs = [a for (_, a, _) in guards_before(p, len(p.events))]
+            if [(s[0], s[1], s[2]) for s in sig] != [("SINK", "Data", "in")] or vis or brs:
+                probs.append("Data arm is not the unconditional, stateless relay (sends %s, %d other effects, %d branches)" % ([(s[0], s[1], s[2]) for s in sig], len(vis), len(brs)))
+        ctx.ob("REL-1:1", v.key(h, "Data", "REL-1:1", "stateless-relay"), not probs, "every member datum is forwarded once, unconditionally, touching no shared cell" if not probs else probs[0], v.loc(h))
+        # cell write census: Some only in own H arm, None only in own T arm, both at the handler's own index
+        probs = []
+        sels = set()
+        for k in tb:
+            for (e, b) in cell_writes(v, k):
+                arms = site_arms(v, b, e.site)
+                sel = cell_key(e.cell)[1]
+                sels.add(sel)
+                if e.kind != "cell" or e.op != "store":
+                    probs.append("member cell written by %s" % e.op)
+                elif e.value[0] == "agg" and e.value[2] == "Option::Some":
+                    if not (b == h and arms == ["Handshake"]):
+                        probs.append("Some stored outside the member's Handshake arm")
+                elif e.value[0] == "agg" and e.value[2] == "Option::None":
+                    if not (b == h and arms == ["Terminate"]):
+                        probs.append("None stored outside the member's Terminate arm")
+                else:
+                    probs.append("member cell stored a non-Option value")
+        # index agreement with the subscribe site
+        subs = [e for e, b in subscribe_sends(v)]
+        idx_sub = None
+        if len(subs) == 1 and subs[0].recv[0] == "index":
+            idx_sub = subs[0].recv[2]
+        own = {s for s in sels}
+        if len(own) != 1 or idx_sub is None or list(own)[0] != ("idx", idx_sub):
+            probs.append("member cell index is not the index the member was subscribed with")
+        ctx.ob("ATM-single-writer", v.key(h, None, "ATM-single-writer", "cell-i"), not probs,
+               "cell i is Some exactly from member i's greeting to its completion, written only by member i" if not probs else "; ".join(sorted(set(probs))[:3]), v.loc(h))
+        # completion
+        okc, n = True, 0
+        for p in v.arm(h, "Terminate"):
+            for s in path_terminals(v, h, "Terminate", p):
+                n += 1
+                g = grd_once(v, p, s[4])
+                if not (g and g["step"] == 1 and g["init"] == 0 and g["post_offset"] == 0 and g["bound"] is not None and _is_member_count(v, g["bound"]) and g["uniform"] and g["adjacent"]):
+                    okc = False
+                cl = [i for i, e in ev_effects(p) if e.kind == "cell" and e.op == "store" and e.value[0] == "agg" and e.value[2] == "Option::None"]
+                if not cl or (g and g["rmw_idx"] is not None and cl[0] > g["rmw_idx"]):
+                    okc = False
+        ctx.ob("GRD-once", v.key(h, "Terminate", "GRD-once", "complete-at-last-member"), okc and n >= 1,
+               "the sink completes exactly when end_count reaches n; the member's cell is cleared first" if okc else "completion guard / clear-count-emit order broken", v.loc(h))
+        no_other_t = [1 for e, b, arms in terminal_sink_sends(v) if e.variant == "Terminate" and not (b == h and arms == ["Terminate"])]
+        ctx.ob("PL-nonH", v.key(h, None, "PL-nonH", "single-completion-site"), not no_other_t, "no other Terminate-to-sink site", v.loc(h))
+    lemma_down_relay(ctx, v, d, "Pull", ("Pull",), what="pull-to-every-live-member")
+    # n agreement: subscribe loop range, cell vector length, completion bound
+    alloc = [c for k, c in v.op.cells.items() if k in tb]
+    okn = len(alloc) == 1 and any(_is_member_count(v, x) for x in walk(alloc[0].alloc) if x[0] == "call" and x[2].endswith("::len"))
+    ctx.ob("EQV-count", "%s:EQV-count:n" % v.name, okn, "the cell vector is sized by the member count that also bounds the subscribe loop and the completion guard", v.loc(r))
+    _merge_subscribe_loop(ctx, v)
+    _merge_late_greeter(ctx, v)
+
+
+@prop("C08", "other",
+      "Structural proof of merge's clauses for every member count (the code is generic over a slice), sequential, A1-A6, both "
+      "feature configurations: greeting at the first member greeting (GRD-once post(start_count)==1 from 0, ORD-adjacent, the "
+      "member's talkback stored before it is counted and before the greeting); every datum forwarded once by an unconditional, "
+      "stateless relay (REL-1:1, no branch and no cell access in the Data arm: arrival order is preserved trivially); Pull "
+      "broadcast over the whole cell vector, each send Some-guarded, cell i being Some exactly between member i's greeting and "
+      "completion (write census, index agreement with the subscribe index); completion once when end_count reaches n (GRD-once, "
+      "cell cleared before the count); n agreement between loop range, vector length and completion bound; members may greet "
+      "late (the subscribe loop re-reads the over-flag, no lemma assumes synchrony); a member greeting after the output is over "
+      "is sent Terminate at once and not registered (FIX-3).",
+      axioms=["A1", "A2", "A3", "A5", "A6"])
+def C08(ctx, model, tier, models):
+    census_operators(ctx, model)
+    n = 0
+    for v in views(model):
+        if v.family == "merge":
+            merge_lemmas(ctx, v)
+            n += 1
+    ctx.ob("CEN-H", "merge-present", n == 1, "merge analysed")
+    ctx.floor("GRD-once", 2)
+    ctx.floor("GRD-flag", 2)
+
+
+# ============================================================================= C09 concat
+
+def concat_lemmas(ctx, v):
+    h = v.by_role("UP")[0]
+    d = v.by_role("DOWN")[0]
+    r = v.root
+    nexts = [t for t in v.by_role("THUNK") if any(e.kind == "send" for e in v.all_effects(t))]
+    ctx.ob("CEN-H", "%s:next-thunk" % v.name, len(nexts) == 1, "%d sending thunk(s)" % len(nexts), v.loc(r))
+    if len(nexts) != 1:
+        return
+    t = nexts[0]
+    # the only subscribe site is in `next`; the member subscribed is sources[i] with i the current index
+    subs = subscribe_sends(v)
+    ok = len(subs) == 1 and subs[0][1] == t
+    idx_ok = False
+    idx_cell = None
+    if ok:
+        rc = subs[0][0].recv
+        if rc[0] == "index" and rc[2][0] == "aload":
+            idx_cell = cell_key(rc[2][1])
+            idx_ok = all(is_factory_param(v, x) for x in walk(rc[1]) if x[0] == "param") and any(x[0] == "param" for x in walk(rc[1]))
+    ctx.ob("PL-sub", v.key(t, None, "PL-sub", "member-i-subscribed-in-next"), ok and idx_ok,
+           "the only subscribe site is in `next` and subscribes sources[i] for the current index i" if ok and idx_ok else "subscribe site is not sources[i] inside `next`", v.loc(t))
+    # call sites of next
+    callers = thunk_callers(v, t)
+    good = bool(callers) and all((v.op.roles.get(cb) == "UP" and cv == "Terminate") or (cb == r and cv == "Handshake") for cb, cv, _ in callers)
+    ctx.ob("PL-sub", v.key(t, None, "PL-sub", "next-called-only-on-completion"), good,
+           "`next` is called from %s" % sorted({"%s.%s" % (v.label(cb), VSHORT.get(cv, "-")) for cb, cv, _ in callers}), v.loc(t))
+    # in UP.T the index is advanced (unit RMW on the same cell) before the call
+    probs = []
+    for p in returning(v.arm(h, "Terminate", inline=0)):
+        rm = [(i, e) for i, e in ev_effects(p) if e.kind == "atomic" and e.op == "fetch_add" and e.operand[3] == 1 and cell_key(e.cell) == idx_cell]
+        th = [(i, e) for i, e in ev_effects(p) if e.kind == "thunk" and e.target == t]
+        if len(rm) != 1 or len(th) != 1 or not rm[0][0] < th[0][0]:
+            probs.append("member end is not: i += 1; next()")
+        sends = [e for i, e in ev_effects(p) if e.kind == "send"]
+        if sends:
+            probs.append("member end sends something itself")
+    ws = cell_writes(v, idx_cell[0]) if idx_cell else []
+    if not all(b == h and site_arms(v, b, e.site) == ["Terminate"] for e, b in ws):
+        probs.append("the member index is written outside the member's Terminate arm")
+    ctx.ob("ORD-update-emit", v.key(h, "Terminate", "ORD-update-emit", "advance-then-next"), not probs and idx_cell is not None,
+           "member k+1 is subscribed only from member k's Terminate, after the index moved on" if not probs else "; ".join(sorted(set(probs))), v.loc(h))
+    # K-thunk: next_ref stored before the first call in ROOT.H
+    probs = []
+    for p in returning(v.arm(r, "Handshake", inline=0)):
+        st = [i for i, e in ev_effects(p) if e.kind == "cell" and e.op == "store" and e.value[0] == "agg" and e.value[2] == "Option::Some"]
+        th = [i for i, e in ev_effects(p) if e.kind == "thunk" and e.target == t]
+        if len(th) != 1 or not st or not st[0] < th[0]:
+            probs.append("ROOT.H does not store the thunk before its single first call")
+    ctx.ob("ORD-store-pub", v.key(r, "Handshake", "ORD-store-pub", "next_ref-before-first-call"), not probs, "next_ref is set before `next` first runs" if not probs else probs[0], v.loc(r))
+    for e, b, arms in terminal_sink_sends(v):
+        if b == t:
+            _concat_completion(ctx, v, b, e)
+    lemma_rel_one(ctx, v, h, "Data", "SINK", "Data", "in", what="data-relayed", only_class=("SINK", "UPTB"))
+    lemma_rel_one(ctx, v, h, "Error", "SINK", "Error", "in", what="error-relayed", only_class=("SINK", "UPTB", "UPSRC"))
+    # after an error or a disposal no later member: no call of next in UP.E / DOWN (covered by the caller census above),
+    # and the error arm has no thunk call at all
+    th_e = [e for p in v.arm(h, "Error", inline=0) for i, e in ev_effects(p) if e.kind == "thunk"]
+    ctx.ob("PL-sub", v.key(h, "Error", "PL-sub", "no-next-after-error"), not th_e, "the Error arm subscribes nobody", v.loc(h))
+    demand_lemmas(ctx, v)
+
+
+@prop("C09", "other",
+      "Structural proof for concat, every member count, sequential, A1-A6, both configurations: the only subscribe site is in thunk "
+      "`next` and subscribes sources[i] for the current index; `next` is called once from ROOT.H (after next_ref is stored) and "
+      "otherwise only from a member's Terminate arm, after the unit increment of i, i being written nowhere else - so member k+1 is "
+      "subscribed only after member k completed and (A2) all of k's data precede k+1's; completion in `next` is guarded by i == n "
+      "with n the member count and nothing follows it; DOWN.P records the outstanding pull before relaying it and a later member "
+      "is pulled on greeting iff one was recorded, after its talkback was stored (REL-xor); the Error arm and the talkback never "
+      "call `next`; Data and Error are 1:1 relays. Assumption: at least one member (the property's own bound). The stale-cell "
+      "window (KF-3) is reported under C04.",
+      axioms=["A1", "A2", "A3", "A5", "A6", "A7 (demand clause)"])
+def C09(ctx, model, tier, models):
+    census_operators(ctx, model)
+    n = 0
+    for v in views(model):
+        if v.family == "concat":
+            concat_lemmas(ctx, v)
+            n += 1
+    ctx.ob("CEN-H", "concat-present", n == 1, "concat analysed")
+    ctx.floor("PL-sub", 3)
+    ctx.assumptions.append("concat!() has at least one member")
